@@ -109,6 +109,32 @@ def run(ctx):
                 from bluebonnet.fluids import gas as gas_
                 compare("Fluid.gas_FVF", lambda a: fl.gas_FVF(a, tpc_g, ppc_g), lambda x: gas_.b_factor_DAK(T, x, tpc_g, ppc_g), arr, label, dict(**params, Tpc=tpc_g, Ppc=ppc_g))
                 compare("Fluid.gas_viscosity", lambda a: fl.gas_viscosity(a, tpc_g, ppc_g), lambda x: gas_.viscosity_Sutton(T, x, tpc_g, ppc_g, gg), arr, label, dict(**params, Tpc=tpc_g, Ppc=ppc_g))
+        # many single-precision pressures through the gas methods (fixed 2026-10: about 7 in 100 000 float32 pressures made the root
+        # search of the Z-factor give up with RuntimeError, the rest were solved in single precision): no failure, double-precision values
+        if k < (2 if ctx.quick else 10):
+            from bluebonnet.fluids import gas as gas_
+            tpc_g, ppc_g = -72.2, 653.0
+            if 1.05 <= (T + 459.67) / (tpc_g + 459.67) <= 3.0:
+                p32 = rng.uniform(50.0, 9000.0, 15000 if ctx.quick else 60000).astype(np.float32)
+                ev += 1
+                try:
+                    with warnings.catch_warnings():
+                        warnings.simplefilter("ignore")
+                        bg32 = np.asarray(fl.gas_FVF(p32, tpc_g, ppc_g), float)
+                    sub = rng.choice(len(p32), 200, replace=False)
+                    want32 = np.array([float(gas_.b_factor_DAK(T, float(p32[j_]), tpc_g, ppc_g)) for j_ in sub])
+                    if bg32.shape != p32.shape or not np.allclose(bg32[sub], want32, rtol=2e-5, atol=0):
+                        bad("Fluid.gas_FVF: array result differs from the element-wise scalar result (float32 pressures)", dict(T=T, Tpc=tpc_g, Ppc=ppc_g, n=len(p32), dtype="float32"),
+                            dict(max_rel_diff=float(np.abs(bg32[sub] / want32 - 1).max())))
+                except Exception as e:  # noqa: BLE001
+                    worst = None
+                    for q_ in p32:
+                        try:
+                            gas_.b_factor_DAK(T, q_, tpc_g, ppc_g)
+                        except Exception:  # noqa: BLE001
+                            worst = float(q_)
+                            break
+                    bad("Fluid.gas_FVF: array call raises on a float32 pressure array inside the correlation's range", dict(T=T, Tpc=tpc_g, Ppc=ppc_g, n=len(p32), dtype="float32", first_failing_pressure=worst), repr(e)[:200])
         # integer-valued scalar parameters (Python ints) with large integer pressures: any product formed
         # in the array's integer dtype before a float enters (p*T, p**2*T, ...) wraps silently for int32
         Ti, sali = int(rng.choice([100, 200, 300, 400])), int(rng.integers(0, 25))
